@@ -516,6 +516,29 @@ def r6(ctx):
                       'after a tag filter is cleared the remaining tag filters are re-applied with the tag each of them stores',
                       'after a tag filter is cleared the remaining tag filters are re-applied with %s, the tag named in the clear call, not with their own: a call site already known gets the cleared filter\'s tag from the survivors, one first used afterwards gets the right one'
                       % estr(replay[0].args[1]))
+    # a replay hands the stored filter to the matcher as it was stored: every matcher argument (type, text, compiled regex, priority
+    # range) is that filter's own field.  A NULL or foreign regex makes _cs_matches_filter_ answer "no" for a regex filter, so
+    # call sites already known lose what call sites first used afterwards still get.
+    n_rep = 0
+    for g in prog.all_fns(files={'lib/log.c'}):
+        for ev in list(g.calls('_log_filter_apply')) + list(g.calls('_log_filter_apply_to_cs')):
+            if last_field(unwrap(ev.args[2])) != ('qb_log_filter', 'conf'):
+                continue
+            n_rep += 1
+            callee = prog.fn(ev.callee)
+            base = estr(unwrap(unwrap(ev.args[2])['b'])) if unwrap(ev.args[2]).get('k') == 'mem' else None
+            wrong = []
+            for i in range(3, len(ev.args)):
+                pn = callee.params[i]['n']
+                au = unwrap(ev.args[i])
+                if not (last_field(au) == ('qb_log_filter', pn) and au.get('k') == 'mem' and estr(unwrap(au['b'])) == base):
+                    wrong.append('%s = %s' % (pn, estr(ev.args[i])))
+            ctx.check('R6', 'replay:%s:matcher-arguments-are-the-stored-filter' % g.name, not wrong, ev,
+                      'the stored filter is re-applied with its own type, text, regex and priority range',
+                      'a stored filter is re-applied with %s instead of its own field: the matcher sees a different filter than the one installed (a regex filter '
+                      'without its compiled regex matches nothing), so call sites already known are routed differently from ones first used afterwards' % ', '.join(wrong))
+    if n_rep < 2:
+        raise AnalysisBroken('log.c: %d replay sites of stored filters found' % n_rep)
     tf = prog.fn('qb_log_target_free')
     clr = [ev for ev in list(tf.calls('qb_log_filter_ctl')) + list(tf.calls('qb_log_filter_ctl2')) + list(tf.calls(filter_core(prog).name)) if cval(unwrap(ev.args[1])) == prog.econst('QB_LOG_FILTER_CLEAR_ALL')]
     ok = bool(clr) and all(cval(unwrap(ev.args[3])) != 0 or unwrap(ev.args[3]).get('k') == 'str' for ev in clr)
